@@ -280,6 +280,22 @@ def compare_result(result, loaded, opts, rec, ctx, tag="result"):
     return True
 
 
+def sources_inside(loaded, folder, rec, ctx, tag):
+    """What a loaded dataset says about where it came from (used for the references of the next save) is the file in the
+    folder it was loaded from - not a place it, or the data it was computed from, lived at earlier."""
+    root = Path(folder).resolve()
+    for label, ds in loaded.data.items():
+        sp = ds.attrs.get("source_path")
+        rec.count("loaded_source_paths_checked")
+        if sp is None:
+            continue
+        rp = Path(sp).resolve()
+        if root not in rp.parents or not rp.exists():
+            rec.violation(f"{tag}:loaded-dataset-source-outside-folder", ctx, f"dataset {label!r} loaded from {root} reports source_path {sp!r}")
+            return False
+    return True
+
+
 def numeric_parameter_labels(jc):
     """The same case with every parameter label replaced by a numeric-looking one (01, 02, 1.10, ...): labels are text,
     whatever they look like, in every parameter file a result folder holds."""
@@ -309,18 +325,29 @@ def run_result(rng, rec, log, scratch, idx):
     if rng.integers(3) == 0:
         jc = numeric_parameter_labels(jc)
     target_kind = str(rng.choice(["absolute", "relative", "relative-dotdot", "relative-dot", "relative-via-sibling"]))
-    ctx = dict(jc, saving_options=opt_name, target=target_kind)
-    try:
-        with time_limit(60):
-            result = optimize(S.build_scheme(jc, maximum_number_function_evaluations=3, add_svd=bool(rng.integers(2))), verbose=False, raise_exception=True)
-    except (Exception, CaseTimeout) as e:  # noqa
-        rec.skip(f"optimisation raised {type(e).__name__}")
-        return None
+    data_from_files = bool(rng.integers(2))
+    ctx = dict(jc, saving_options=opt_name, target=target_kind, data_from_files=data_from_files)
     base = Path(scratch) / f"res{idx}"
     if base.exists():
         shutil.rmtree(base)
     (base / "work").mkdir(parents=True)
     (base / "elsewhere").mkdir()
+    try:
+        scheme0 = S.build_scheme(jc, maximum_number_function_evaluations=3, add_svd=bool(rng.integers(2)))
+        if data_from_files:
+            # the usual case: the input data were loaded from files and carry the place they came from (source_path)
+            from glotaran.io import load_dataset, save_dataset
+
+            (base / "input").mkdir()
+            for k, label in enumerate(list(scheme0.data)):
+                fn = base / "input" / f"in{k}.nc"
+                save_dataset(scheme0.data[label], fn)
+                scheme0.data[label] = load_dataset(fn)
+        with time_limit(60):
+            result = optimize(scheme0, verbose=False, raise_exception=True)
+    except (Exception, CaseTimeout) as e:  # noqa
+        rec.skip(f"optimisation raised {type(e).__name__}")
+        return None
     old = os.getcwd()
     try:
         os.chdir(base / "work")
@@ -371,6 +398,8 @@ def run_result(rng, rec, log, scratch, idx):
     rec.count("results_roundtripped")
     if not compare_result(result, loaded, opts, rec, ctx):
         return None
+    if not sources_inside(loaded, moved, rec, ctx, "result"):
+        return None
     # second generation: the LOADED result saved to another folder must be self-contained there (all references
     # relative to and inside the new folder), also after the first folder is gone
     second = base / "second" / "gen2"
@@ -404,6 +433,8 @@ def run_result(rng, rec, log, scratch, idx):
         os.chdir(old)
     rec.count("results_second_generation")
     if not compare_result(result, loaded2, opts, rec, ctx, tag="result2"):
+        return None
+    if not sources_inside(loaded2, second, rec, ctx, "result2"):
         return None
     # third step: ANOTHER result (same scheme, other data) saved over the same folder with allow_overwrite: loading the
     # same path again must give the new result's datasets, not what was read from that path before
